@@ -46,6 +46,25 @@ func runHookExecWL(e *Env) {
 	}
 	o := NewOpSim(e, hooks)
 	o.UseRealHooks()
+	// ambient environment of the operator process (an input like any other): in some runs it
+	// already holds variables with the names of the per-execution ones, pointing elsewhere
+	if wl.Bias(1, 3) {
+		decoy := filepath.Join(e.Dir, "ambient-decoy")
+		_ = os.WriteFile(decoy, nil, 0o644)
+		vars := []string{"BINDING_CONTEXT_PATH", "METRICS_PATH", "KUBERNETES_PATCH_PATH", "VALIDATING_RESPONSE_PATH", "CONVERSION_RESPONSE_PATH"}
+		mask := 1 + wl.Choose(31)
+		for i, v := range vars {
+			if mask&(1<<i) != 0 {
+				val := decoy
+				if wl.Choose(3) == 0 {
+					val = "/nonexistent/ambient"
+				}
+				os.Setenv(v, val)
+				defer os.Unsetenv(v)
+			}
+		}
+		simrt.Count("probe:ambient-environment-has-conflicting-names")
+	}
 	api := o.API
 	api.ApplyNamespace("default", nil)
 	plansByExec := map[int]*execPlan{}
